@@ -461,6 +461,22 @@ func scaleRings(p []ring, e int) []ring {
 	return out
 }
 
+// scaleRingsXY multiplies X by 2^ex and Y by 2^ey (exact): polygons whose extents in x and y differ
+// by hundreds of binary orders of magnitude (the centroids rescale each axis on its own)
+func scaleRingsXY(p []ring, ex, ey int) []ring {
+	fx, fy := math.Ldexp(1, ex), math.Ldexp(1, ey)
+	out := make([]ring, len(p))
+	for i, r := range p {
+		out[i] = make(ring, len(r))
+		for j, q := range r {
+			out[i][j] = geom.Point{X: q.X * fx, Y: q.Y * fy}
+		}
+	}
+	return out
+}
+
+var anisoExps = [][2]int{{0, 600}, {600, 0}, {0, -600}, {-600, 0}, {350, -350}, {-350, 350}, {0, 520}, {-520, 0}, {0, 320}, {310, 0}, {400, -200}, {0, -330}}
+
 // lay picks the memory layout suffix of a tag (see relayout)
 func lay(r *vproto.Rng) string { return []string{"", "", "", ".p", ".p", ".s"}[r.Intn(6)] }
 
@@ -512,6 +528,12 @@ func gen(seed uint64, tier string) {
 	for _, e := range []int{-600, -400, 400, 600} {
 		b := toPoly(scaleRings([]ring{respell(big, spell{closed: true}), respell(hole, spell{closed: true, rev: true})}, e))
 		fmt.Fprintf(out, "cent g %s\nmcent g %s\n", G(b), G(geom.MultiPolygon{b}))
+	}
+	// anisotropic magnitudes (x ~ 1, y ~ 2^±600 and the like): the centroid is representable, the cubic sums
+	// are not unless each axis is rescaled on its own
+	for _, e := range anisoExps {
+		b := toPoly(scaleRingsXY([]ring{respell(big, spell{closed: true}), respell(hole, spell{closed: true, rev: true})}, e[0], e[1]))
+		fmt.Fprintf(out, "area g %s\ncent g %s\nmcent g %s\n", G(b), G(b), G(geom.MultiPolygon{b}))
 	}
 	for _, mp := range []geom.MultiPolygon{{}, {{}}, {{sqcwC}}, {{sqC}, {respell(hole, spell{closed: true, rev: true})}},
 		{{sqcwC}, {respell(big, spell{closed: true}), respell(hole, spell{closed: true})}}} {
@@ -597,6 +619,9 @@ func gen(seed uint64, tier string) {
 			e = []int{-300, 300}[r.Intn(2)]
 			q, _ = randSpells(scaleRings(base, e), true, true)
 			fmt.Fprintf(out, "cent g%s %s\nmcent g%s %s\n", lay(r), G(toPoly(q)), lay(r), G(geom.MultiPolygon{toPoly(q)}))
+			ae := anisoExps[r.Intn(len(anisoExps))]
+			q, _ = randSpells(scaleRingsXY(base, ae[0], ae[1]), true, true)
+			fmt.Fprintf(out, "area g%s %s\ncent g%s %s\nmcent g%s %s\n", lay(r), G(toPoly(q)), lay(r), G(toPoly(q)), lay(r), G(geom.MultiPolygon{toPoly(q)}))
 		}
 		// the same base at dyadic scales (absolute thresholds must not exist): three scales per base,
 		// one closed and one free spelling each; still tag g (exact on the scaled grid)
@@ -1101,6 +1126,7 @@ func gen(seed uint64, tier string) {
 		b := &geom.Bounds{Min: pt(x0, y0), Max: pt(x0+r.Range(0, 40), y0+r.Range(0, 40))}
 		fmt.Fprintf(out, "bnd g %s\n", G(b))
 	}
+	genOp(out, seed, tier) // op.Within / op.FixOrientation lines (op.go), own random stream
 }
 
 // ---------- implementation stage ----------
@@ -1425,7 +1451,9 @@ func concurrentEval(line string) string {
 func impl() {
 	vproto.Lines(func(line string, out *bufio.Writer) {
 		var res string
-		if strings.HasPrefix(line, "cc ") {
+		if strings.HasPrefix(line, "op") {
+			res = evalOp(line)
+		} else if strings.HasPrefix(line, "cc ") {
 			res = concurrentEval(line[3:])
 		} else {
 			res = evalLine(line)
@@ -1445,5 +1473,7 @@ func main() {
 		gen(seed, tier)
 	case "impl":
 		impl()
+	case "extract":
+		extractMain(os.Args[2:])
 	}
 }
